@@ -216,6 +216,25 @@ Proof.
   - apply andb_prop in H as [H _]. apply andb_prop in H as [_ Hin]. exact (G Hin).
 Qed.
 
+Lemma bundle_self_parse : forall nc lat tag tl ds b t fuel,
+  forallb floats4 tl = true -> forallb (pkt_guard nc) tl = true ->
+  build_elems nc lat tl = Ok ds -> enc_contents ds = Ok b -> write_timetag tag = Ok t ->
+  (length (bundle_prefix ++ t ++ b) < fuel)%nat ->
+  exists cs, parse_bundle fuel (bundle_prefix ++ t ++ b) = Ok (PBundle tag cs).
+Proof.
+  intros nc lat tag tl ds b t fuel Hwtl Hg Hds Hb Ht Hfuel.
+  pose proof (write_timetag_len _ _ Ht) as Ht8.
+  destruct fuel as [| f]; [inversion Hfuel |].
+  assert (Hlen : length (bundle_prefix ++ t ++ b) = (16 + length b)%nat).
+  { rewrite !app_length. unfold zlen in Ht8. cbn [length bundle_prefix]. lia. }
+  assert (Hrt : Forall (rt nc) tl) by (apply Forall_forall; intros x _; apply rt_all).
+  destruct (rt_contents nc lat tl Hrt Hwtl Hg ds b Hds Hb (bundle_prefix ++ t) [] [] f eq_refl ltac:(lia)) as (cs & _ & Hpc).
+  exists cs. cbn [parse_bundle]. change 8 with (zlen bundle_prefix) at 1.
+  rewrite (get_timetag_write _ _ _ _ Ht). cbn [bind].
+  replace (zlen bundle_prefix + 8) with (zlen (bundle_prefix ++ t)) by (rewrite zlen_app; change (zlen bundle_prefix) with 8; lia).
+  rewrite app_nil_r in Hpc. rewrite app_assoc. rewrite Hpc. cbn [bind rev app]. reflexivity.
+Qed.
+
 Theorem accepted_all : forall nc a, accepted nc a.
 Proof.
   intros nc. apply arg_nested_ind.
@@ -242,19 +261,10 @@ Proof.
       rewrite in_domain_bundle in Hd. apply andb_prop in Hd as [Htag Hel].
       destruct (accepted_elems nc lat tl Htl Hwtl Hel) as (ds & b & Hds & Hb).
       destruct (write_timetag_ok tag Htag) as (t & Ht).
-      pose proof (write_timetag_len _ _ Ht) as Ht8.
-      set (d0 := bundle_prefix ++ t ++ b).
-      exists d0. rewrite build_pkt_bundle, Hds. cbn [bind]. unfold enc_bundle. rewrite Ht, Hb. cbn [bind]. fold d0.
-      assert (Hlen : length d0 = (16 + length b)%nat).
-      { subst d0. rewrite !app_length. unfold zlen in Ht8. cbn [length bundle_prefix]. lia. }
-      assert (Hrt : Forall (rt nc) tl) by (apply Forall_forall; intros x _; apply rt_all).
-      destruct (rt_contents nc lat tl Hrt Hwtl (forallb_guard nc lat tl Hel) ds b Hds Hb
-                            (bundle_prefix ++ t) [] [] (16 + length b)%nat eq_refl ltac:(lia)) as (cs & _ & Hpc).
-      unfold check_bundle, parse_bundle_top. rewrite Hlen. cbn [parse_bundle].
-      subst d0. change 8 with (zlen bundle_prefix) at 1.
-      rewrite (get_timetag_write _ _ _ _ Ht). cbn [bind].
-      replace (zlen bundle_prefix + 8) with (zlen (bundle_prefix ++ t)) by (rewrite zlen_app; change (zlen bundle_prefix) with 8; lia).
-      rewrite app_nil_r in Hpc. rewrite app_assoc. rewrite Hpc. reflexivity.
+      destruct (bundle_self_parse nc lat tag tl ds b t (S (length (bundle_prefix ++ t ++ b))) Hwtl (forallb_guard nc lat tl Hel) Hds Hb Ht
+                                  (Nat.lt_succ_diag_r _)) as (cs & Hp).
+      exists (bundle_prefix ++ t ++ b). rewrite build_pkt_bundle, Hds. cbn [bind]. unfold enc_bundle. rewrite Ht, Hb. cbn [bind].
+      unfold check_bundle, parse_bundle_top. rewrite Hp. reflexivity.
 Qed.
 
 (* ---- conversely: whatever the (NUL-checking) encoder accepts is representable ---- *)
@@ -265,9 +275,11 @@ Proof. intros t h H. unfold write_timetag in H. unfold uint64. destruct (_ && _)
 Lemma write_blob_inv : forall b h, write_blob b = Ok h ->
   negb (match b with [] => true | _ => false end) && (zlen b <? 2147483648) = true.
 Proof.
-  intros b h H. unfold write_blob in H. destruct b as [| x r]; [discriminate H |].
+  intros b h H. unfold write_blob in H. destruct b as [| x r] eqn:Eb; [discriminate H |].
+  (* keep the blob abstract: the kernel must not start computing with zlen (x :: r) *)
+  rewrite <- Eb in H.
   apply bind_ok in H as (hd & Hh & _). apply write_int_inv in Hh. unfold int32 in Hh.
-  apply andb_prop in Hh as [_ Hh]. cbn [negb andb]. exact Hh.
+  apply andb_prop in Hh as [_ Hh]. rewrite Eb in Hh. rewrite Hh. reflexivity.
 Qed.
 Lemma is_open_inv : forall s, is_open_s s = true -> s = [91].
 Proof.
@@ -375,8 +387,8 @@ Proof.
       assert (Hok : Forall targ_ok targs) by (apply (coerce_args_ok true tl targs v Hwtl Hc Hv); left; reflexivity).
       unfold check_msg in Hb. rewrite (parse_enc_msg true addr targs d0 He0 Hna Hok) in Hb. unfold nest_res in Hb.
       destruct (nest (map tok_of targs) [[]]) as [ps |] eqn:Hn; [| discriminate Hb].
-      rewrite in_domain_msg, Hna, (nests_balanced true tl targs [[]] ps Hc ltac:(discriminate) Hn),
-        (representable_args tl targs v Hrep Hc Hv).
+      pose proof (nests_balanced true tl targs [[]] ps Hc ltac:(discriminate) Hn) as Hbal. cbn [length pred] in Hbal.
+      rewrite in_domain_msg, Hna, Hbal, (representable_args tl targs v Hrep Hc Hv).
       rewrite Ea. reflexivity.
     + rewrite build_pkt_bundle in Hb. apply bind_ok in Hb as (ds & Hds & Hb). apply bind_ok in Hb as (d0 & He & _).
       unfold enc_bundle in He. apply bind_ok in He as (t & Ht & _).
